@@ -963,6 +963,20 @@ def apply_op(case, op, cov, mode, log):
         if not (eta.sum() > 0):
             from .core import SkipRun
             raise SkipRun('eta-all-zero')
+        # the same numbers in another memory layout: what a caller builds
+        # with np.array([eta_t, eta_x]).T, by slicing a larger table, ...
+        layout = op.get('layout', 'c')
+        if layout == 'f':
+            eta = np.asfortranarray(eta)
+        elif layout == 'strided':
+            big = np.full((2 * len(boxes) + 1, ) + eta.shape[1:] + (3, ),
+                          -7.0)
+            big[1::2, ..., 1] = eta
+            eta = big[1::2, ..., 1]
+        elif layout == 'reversed-view':
+            eta = np.ascontiguousarray(eta[::-1])[::-1]
+        if layout != 'c':
+            cov.inc('probe.indicator_layout.' + layout)
         ambiguous = False
         if mode.get('dorfler_oracle'):
             try:
@@ -1348,6 +1362,12 @@ def gen_run(seed, params):
             continue
         mm = trial
         ops.append(op)
+    # memory layout of the indicator arrays (own stream)
+    lrng = stream(seed, 'workload-layout')
+    for op in ops:
+        if op['op'] in ('dorfler_iso', 'dorfler_aniso') and (
+                lrng.random() < params.get('p_layout', 0.35)):
+            op['layout'] = lrng.choice(['f', 'f', 'strided', 'reversed-view'])
     # a second mesh object in the same process (own stream: the runs without
     # it stay what they were)
     drng = stream(seed, 'workload-decoy')
